@@ -38,6 +38,10 @@ def dsl(e):
         return "%s[%s]" % (dsl(e[1]), dsl(e[2]))
     if t == "plus":
         return "(%s + %s)" % (dsl(e[1]), dsl(e[2]))
+    if t == "coal":
+        return "(%s ?? %s)" % (dsl(e[1]), dsl(e[2]))
+    if t == "ecoal":
+        return "(%s ??? %s)" % (dsl(e[1]), dsl(e[2]))
     if t == "map":
         return "{" + ", ".join('"%s": %s' % (k, dsl(v)) for k, v in e[1]) + "}"
     raise ValueError(t)
@@ -67,9 +71,29 @@ def coq(e):
         return "(EIndex %s %s)" % (coq(e[1]), coq(e[2]))
     if t == "plus":
         return "(EPlus %s %s)" % (coq(e[1]), coq(e[2]))
+    if t == "coal":
+        return "(ECoalesce %s %s)" % (coq(e[1]), coq(e[2]))
+    if t == "ecoal":
+        return "(EEmptyCoalesce %s %s)" % (coq(e[1]), coq(e[2]))
+    if t == "compound":
+        # `lhs op= rhs` is built as `lhs = lhs op rhs` (BuildCompoundAssignmentNode); e = ("compound", op, lhs-as-expression, rhs)
+        return coq(({"+": "plus", "??": "coal", "???": "ecoal"}[e[1]], e[2], e[3]))
     if t == "map":
         return "(EMapLit [" + "; ".join("(%s, %s)" % (cstr(k), coq(v)) for k, v in e[1]) + "])"
     raise ValueError(t)
+
+
+def stmt_dsl(l, e):
+    if e[0] == "compound":
+        return "%s %s= %s" % (lv_dsl(l), e[1], dsl(e[3]))
+    return "%s = %s" % (lv_dsl(l), dsl(e))
+
+
+def lv_as_expr(l):
+    e = (l[0], l[1])
+    for i in l[2]:
+        e = ("index", e, i)
+    return e
 
 
 def lv_dsl(l):
@@ -132,7 +156,7 @@ def surely_absent(e):
         return e[1].startswith("nosuch")
     if t == "index":
         return surely_absent(e[1]) or False
-    if t == "plus":
+    if t in ("plus", "coal", "ecoal"):
         return surely_absent(e[1]) and surely_absent(e[2])
     return False
 
@@ -156,7 +180,11 @@ def gen_absent(rng):
 
 def gen_scalar(rng, depth=0):
     """an expression whose value is a scalar or absent (never a map), inside the model's domain"""
-    c = rng.randrange(12)
+    c = rng.randrange(14)
+    if c in (12, 13):
+        if depth >= 2:
+            return ("int", 5)
+        return ("coal" if c == 12 else "ecoal", gen_scalar(rng, depth + 1), gen_scalar(rng, depth + 1))
     if c == 0:
         return ("int", rng.choice([0, 1, 3, -7, 42, 1000]))
     if c == 1:
@@ -252,6 +280,14 @@ def gen_stmt(rng, early, fresh):
     return (("posvalue", rng.choice([1, 2, 3, 9])), sc())
 
 
+def maybe_compound(rng, s):
+    """turn `lv = e` into `lv op= e` for the lvalue forms that can be read back"""
+    l, e = s
+    if l[0] in ("field", "oos", "local") and (l[2] or l[1] in SCAL + ["la", "lb"]) and e[0] not in ("map",) and rng.random() < 0.25:
+        return (l, ("compound", rng.choice(["+", "??", "???"]), lv_as_expr(l), e))
+    return s
+
+
 def gen_case(rng):
     nf = rng.randrange(0, 4)
     pool = [("x", rng.choice(["3", "-4", "17"])), ("y", rng.choice(STRS)), ("z", "")]
@@ -261,7 +297,7 @@ def gen_case(rng):
     fresh = [0]
     prog, early = [], True
     for i in range(n):
-        s = gen_stmt(rng, early, fresh)
+        s = maybe_compound(rng, gen_stmt(rng, early, fresh))
         if s[0][0] in ("srec",) or (s[0][0] in ("field", "fieldind") and not (s[0][0] == "field" and s[0][1] in SCAL and not s[0][2])):
             early = False
         prog.append(s)
@@ -276,7 +312,7 @@ DUMP = ('print json_stringify({"rec": $*, "oos": @*, "loc": {' + ", ".join('"%s"
 
 
 def program_text(prog):
-    return ";\n".join("%s = %s" % (lv_dsl(l), dsl(e)) for l, e in prog) + ";\n" + DUMP
+    return ";\n".join(stmt_dsl(l, e) for l, e in prog) + ";\n" + DUMP
 
 
 def risky(prog):
@@ -304,7 +340,7 @@ def run_batch(ctx, cases):
     import tempfile, os
     blocks = []
     for i, (rec, prog) in enumerate(cases, 1):
-        body = "".join("  %s = %s;\n" % (lv_dsl(l), dsl(e)) for l, e in prog)
+        body = "".join("  %s;\n" % stmt_dsl(l, e) for l, e in prog)
         blocks.append("NR == %d {\n  unset @*;\n%s%s  %s;\n}" % (i, "".join('  ENV["%s"] = "";\n' % n for n in ENVS), body, DUMP))
     inp = "\n".join(rec_json(rec) for rec, _ in cases) + "\n"
     with tempfile.NamedTemporaryFile("w", suffix=".mlr", delete=False) as f:
@@ -430,7 +466,7 @@ def run(ctx):
     for (rec, prog), res in zip(cases, results):
         ctx.count(("assign", program_text(prog), tuple(rec)))
         for l, e in prog:
-            ctx.dist("lvalue:" + l[0]); ctx.dist("rhs_surely_absent" if surely_absent(e) else "rhs_other")
+            ctx.dist("lvalue:" + l[0]); ctx.dist("rhs_surely_absent" if surely_absent(e) else "compound:" + e[1] + "=" if e[0] == "compound" else "rhs_other")
         if res[0] == "skipped":
             ctx.dist("assign_skipped_process_budget")
             continue
